@@ -214,6 +214,17 @@ pub fn scenario(idx: usize, seed: u64, msgs: usize) -> ScenarioResult {
             1..=6 => rng.gen_range(1..300),
             7..=9 if !super::miri() => rng.gen_range(300..70_000),
             10 if !super::miri() => rng.gen_range(70_000..2_000_000),
+            // sizes at and around powers of two up to 4 MiB, and one between 4 and 8 MiB (internal
+            // thresholds - buffer sizes, fast paths - sit there)
+            11 if !super::miri() && rng.gen_range(0..5) == 0 => {
+                let k = *[16u32, 20, 21, 22].choose(&mut rng).unwrap();
+                match rng.gen_range(0..4) {
+                    0 => (1usize << k) - 1,
+                    1 => 1usize << k,
+                    2 => (1usize << k) + 1,
+                    _ => rng.gen_range((4usize << 20)..(8usize << 20) - 4096),
+                }
+            }
             _ => 1,
         };
         let body = gen_bytes(seed ^ m as u64, body_len);
